@@ -27,7 +27,8 @@ REQUIRED_COUNTERS = {"ref_obs_exiting": {"quick": 300, "thorough": 3000},
                      "ref_extras_seen": {"quick": 20, "thorough": 200},
                      "faults_escaped": {"quick": 500, "thorough": 10000},
                      "switch_steps": {"quick": 200, "thorough": 2000},
-                     "detection_race_cases": {"quick": 40, "thorough": 40}}
+                     "detection_race_cases": {"quick": 40, "thorough": 40},
+                     "earlier_results_rechecked": {"quick": 3000, "thorough": 30000}}
 SHARD_TIMEOUT = {"quick": 400, "thorough": 5400}
 INTERPS = ["3.12", "3.11", "3.10", "3.9"]
 
@@ -118,6 +119,16 @@ def worker(spec):
             if p2 and not p:
                 problems.append("frame %d lowlevel entry: %s" % (i, p2))
         res.count("ref_obs")
+        # results are values: what an earlier extraction returned (and the caller still holds) must not change
+        # because a later one ran
+        kept = state.setdefault("kept_ref", [])
+        for old_st, old_sig, old_where in kept:
+            res.count("earlier_results_rechecked")
+            if ctxmon.value_signature(old_st) != old_sig and not problems:
+                problems.append("the result of an earlier extraction (%s) changed when this one ran" % (old_where,))
+        if nontrivial:
+            kept.append((st, ctxmon.value_signature(st), "%r run %r step %r" % (state["label"], state["rseed"], info["step"])))
+            del kept[:-4]
         if nontrivial:
             res.nontrivial(interp, "ref", state["label"], state["rseed"], info["step"])
         if problems and not state.get("failed"):
